@@ -7,7 +7,7 @@ from ..index import AnalysisError, dotted, src, walk_no_nested, names_in
 from ..cfg import CFG, const_env_step
 from ..consteval import run_function, Unfoldable, fold, TOP
 from ..domains import linform, Lin, check_pred
-from ..util import node_calls, own_expr
+from ..util import node_calls, own_expr, pred_is, eval_local
 from .slots import TAPS, MOLECULE, SEQUTILS
 
 
@@ -226,18 +226,26 @@ def r5(ctx):
     # the TAPS caller requests the safe window unless unsafe calls are allowed, and restricts to the convertible reference base
     m = ctx.fn(TAPS, 'TAPSMolecule.obtain_methylation_calls')
     calls = [c for c in walk_no_nested(m) if isinstance(c, ast.Call) and src(c.func) == 'self.get_consensus']
-    ok = bool(calls) and all({k.arg: src(k.value) for k in c.keywords}.get('dove_safe') == 'not self.allow_unsafe_base_calls' and
-                             {k.arg: src(k.value) for k in c.keywords}.get('only_include_refbase') == 'expected_base_to_be_converted' for c in calls)
+    kws = [{k.arg: k.value for k in c.keywords} for c in calls]
+    refvars = {src(k.get('only_include_refbase')) for k in kws if k.get('only_include_refbase') is not None}
+    ok = bool(calls) and all(k.get('dove_safe') is not None and pred_is(k['dove_safe'], lambda e: not e['u'], {'self.allow_unsafe_base_calls': 'u'}, bools=['u']) for k in kws) \
+        and len(refvars) == 1 and all(k.get('only_include_refbase') is not None for k in kws)
     ctx.emit('C14-R5', ok, TAPS, calls[0] if calls else m, 'methylation calling uses the dove-safe consensus restricted to the convertible reference base', key='taps-consensus-arguments')
-    eb = [s for s in walk_no_nested(m) if isinstance(s, ast.Assign) and src(s.targets[0]) == 'expected_base_to_be_converted']
     tab = {}
-    if eb:
+    if len(refvars) == 1 and calls:
+        rv = calls[0].keywords[[k.arg for k in calls[0].keywords].index('only_include_refbase')].value
+        cls = ctx.ix.cls(TAPS, 'TAPSMolecule')
+        methods = {x.name: x for x in cls.body if isinstance(x, ast.FunctionDef)}
         for strand in (False, True):
             for ts in ('F', 'R'):
-                v = fold(eb[0].value, {'self.strand': strand, 'self.taps_strand': ts})
+                env = {'self.strand': strand, 'self.taps_strand': ts}
+                if isinstance(rv, ast.Name):
+                    v = eval_local(m, rv.id, env, methods=methods, stop_at=calls[0])
+                else:
+                    v = eval_local(ast.FunctionDef(name='_', args=m.args, body=[ast.Assign(targets=[ast.Name(id='__v', ctx=ast.Store())], value=rv)], decorator_list=[]), '__v', env, methods=methods)
                 tab[(strand, ts)] = v
     want_t = {(False, 'F'): 'C', (True, 'F'): 'G', (False, 'R'): 'G', (True, 'R'): 'C'}
-    ctx.emit('C14-R5', tab == want_t, TAPS, eb[0] if eb else m, f'convertible reference base per (reverse strand, TAPS strand): {tab}', key='convertible-base')
+    ctx.emit('C14-R5', tab == want_t, TAPS, calls[0] if calls else m, f'convertible reference base per (reverse strand, TAPS strand): {tab}', key='convertible-base')
     # the consensus fed in is the tie-free majority consensus (C13-R1)
     from . import C13
     sub = Ctx(ctx.ix, 'C13', ctx.tier)
